@@ -804,7 +804,7 @@ pub fn exec_value(planv: &serde_json::Value, tag: &str) -> RunResult {
         Ok(p) => p,
         Err(e) => return empty(format!("bad plan: {}", e)),
     };
-    let mut w = World::new(tag, plan.seed ^ 0xe1, &[], &["read.subscribed", "live.start", "live.recv", "append.enter", "append.id", "append.committed", "append.broadcast", "remove.enter", "gc.evict-never"]);
+    let mut w = World::new(tag, plan.seed ^ 0xe1, &[], &["read.subscribed", "live.start", "live.recv", "append.enter", "append.id", "append.committed", "append.sending", "append.broadcast", "remove.enter", "remove.committed"]);
     let mut patch: Option<serde_json::Value> = None;
     let res = std::panic::catch_unwind(std::panic::AssertUnwindSafe(|| run(&plan, &mut w, &mut patch)));
     let _ = simdisk::stop_recording();
